@@ -76,7 +76,16 @@ PROPS["C05"] = {
     "trusted": ["strconv.FormatFloat / ParseFloat only on the harness side to spell generated doubles"],
 }
 
+def _c06_property(r):
+    """"The model multihash of any JSON-serializable value ..." - a scalar is a JSON value"""
+    if r["kind"] == "mh" and r["case"].get("label") == "scalar-value" and isinstance(r["impl"], dict) and r["impl"].get("calc") is None \
+            and r["case"].get("code") in (18, 19):
+        return "mh/scalar-value/no-hash"
+    return None
+
+
 PROPS["C06"] = {
+    "property_check": _c06_property,
     "theorem_modules": ["Sidetree.Props.C06"],
     "prescribes": "Sidetree.Hashing.* (Props.C06: model_multihash_def, valid_iff, code_of_hash, computed_using_iff)",
     "obligations": [{"name": "Shape_Jcs", "facts": "module:Jcs"}, 
